@@ -84,6 +84,60 @@ package nfa
 //@   assumes @A-NONUL r != 0
 //@   ensures result != nil
 
+// ---- C14: every mapper hands a non-nil automaton up the chain (assume/guarantee over the grammar of parser.New:
+// a mapper proves the type of what it returns, and takes the types of what it receives from L-COMB) ----
+//@ spec func isNFA(v any) bool = typeis(v, "*auto.NFA") && unbox(v, "*auto.NFA") != nil
+//@ func concat(ns ...*auto.NFA) *auto.NFA
+//@   requires forall k int :: {ns[k]} 0 <= k && k < len(ns) ==> ns[k] != nil
+//@   ensures @never-nil result != nil
+//@ func quantifyNFA(n *auto.NFA, q any) *auto.NFA
+//@   requires n != nil
+//@   assumes @L-COMB (typeis(q, "rune") && (unbox(q, "rune") == '?' || unbox(q, "rune") == '*' || unbox(q, "rune") == '+')) || typeis(q, "tuple[int, *int]")
+//@   loop[0] invariant forall k int :: {ns[k]} 0 <= k && k < len(ns) ==> ns[k] != nil
+//@   loop[1] invariant forall k int :: {ns[k]} 0 <= k && k < len(ns) ==> ns[k] != nil
+//@   ensures @never-nil result != nil
+//@ func (m *mappers) ToSingleChar(r comb.Result) (comb.Result, bool)
+//@   assumes @L-COMB typeis(r.Val, "rune") && unbox(r.Val, "rune") != 0
+//@   ensures @automaton result1 && isNFA(result0.Val)
+//@ func (m *mappers) ToMatch(r comb.Result) (comb.Result, bool)
+//@   assumes @L-COMB typeis(r.Val, "comb.List") && len(unbox(r.Val, "comb.List")) == 2 && isNFA(unbox(r.Val, "comb.List")[0].Val)
+//@   assumes @L-COMB typeis(unbox(r.Val, "comb.List")[1].Val, "tuple[any, bool]") ==> qOK(unbox(unbox(r.Val, "comb.List")[1].Val, "tuple[any, bool]").p)
+//@   ensures @automaton result1 && isNFA(result0.Val)
+//@ spec func qOK(q any) bool = (typeis(q, "rune") && (unbox(q, "rune") == '?' || unbox(q, "rune") == '*' || unbox(q, "rune") == '+')) || typeis(q, "tuple[int, *int]")
+//@ func (m *mappers) ToGroup(r comb.Result) (comb.Result, bool)
+//@   assumes @L-COMB typeis(r.Val, "comb.List") && len(unbox(r.Val, "comb.List")) == 4 && isNFA(unbox(r.Val, "comb.List")[1].Val)
+//@   assumes @L-COMB typeis(unbox(r.Val, "comb.List")[3].Val, "tuple[any, bool]") ==> qOK(unbox(unbox(r.Val, "comb.List")[3].Val, "tuple[any, bool]").p)
+//@   ensures @automaton result1 && isNFA(result0.Val)
+//@ func (m *mappers) ToSubexpr(r comb.Result) (comb.Result, bool)
+//@   assumes @L-COMB typeis(r.Val, "comb.List")
+//@   assumes @L-COMB forall k int :: {unbox(r.Val, "comb.List")[k]} 0 <= k && k < len(unbox(r.Val, "comb.List")) && typeis(unbox(r.Val, "comb.List")[k].Val, "*auto.NFA") ==> unbox(unbox(r.Val, "comb.List")[k].Val, "*auto.NFA") != nil
+//@   loop[0] invariant forall k int :: {ns[k]} 0 <= k && k < len(ns) ==> ns[k] != nil
+//@   ensures @automaton result1 && typeis(result0.Val, "*auto.NFA") && unbox(result0.Val, "*auto.NFA") != nil
+//@ func (m *mappers) ToExpr(r comb.Result) (comb.Result, bool)
+//@   assumes @L-COMB typeis(r.Val, "comb.List") && len(unbox(r.Val, "comb.List")) == 2 && isNFA(unbox(r.Val, "comb.List")[0].Val)
+//@   assumes @L-COMB typeis(unbox(r.Val, "comb.List")[1].Val, "comb.List") ==> len(unbox(unbox(r.Val, "comb.List")[1].Val, "comb.List")) == 2 && isNFA(unbox(unbox(r.Val, "comb.List")[1].Val, "comb.List")[1].Val)
+//@   ensures @automaton result1 && typeis(result0.Val, "*auto.NFA") && unbox(result0.Val, "*auto.NFA") != nil
+//@ func (m *mappers) ToRegex(r comb.Result) (comb.Result, bool)
+//@   assumes @L-COMB typeis(r.Val, "comb.List") && len(unbox(r.Val, "comb.List")) == 2 && isNFA(unbox(r.Val, "comb.List")[1].Val)
+//@   ensures @automaton result1 && typeis(result0.Val, "*auto.NFA") && unbox(result0.Val, "*auto.NFA") != nil
+
+//@ func (m *mappers) ToCharClass(r comb.Result) (comb.Result, bool)
+//@   assumes @L-COMB typeis(r.Val, "string")
+//@   callsite runesToNFA assumes @A-NONUL result0 != nil
+//@   ensures @automaton result1 ==> isNFA(result0.Val)
+//@ func (m *mappers) ToASCIICharClass(r comb.Result) (comb.Result, bool)
+//@   assumes @L-COMB typeis(r.Val, "string")
+//@   ensures @automaton result1 ==> isNFA(result0.Val)
+//@ func (m *mappers) ToUnicodeCharClass(r comb.Result) (comb.Result, bool)
+//@   assumes @L-COMB typeis(r.Val, "comb.List") && len(unbox(r.Val, "comb.List")) == 4 && typeis(unbox(r.Val, "comb.List")[0].Val, "string") && typeis(unbox(r.Val, "comb.List")[2].Val, "string")
+//@   ensures @automaton result1 ==> isNFA(result0.Val)
+//@ func (m *mappers) ToAnchor(r comb.Result) (comb.Result, bool)
+//@   assumes @L-COMB typeis(r.Val, "rune")
+//@   ensures result1
+//@ func (m *mappers) ToQuantifier(r comb.Result) (comb.Result, bool)
+//@   assumes @L-COMB typeis(r.Val, "comb.List") && len(unbox(r.Val, "comb.List")) == 2
+//@   ensures result1
+
 // Parse: any recorded semantic error and any syntax failure is returned; success never comes with a nil automaton.
 //@ func Parse(regex string) (*auto.NFA, error)
 //@   modifies everything
